@@ -75,6 +75,7 @@ pub async fn start(config_path: &str, real_signals: bool) -> Result<Pooler, Stri
     tokio::spawn(async move {
         let (shutdown_tx, _) = broadcast::channel::<()>(1);
         let (drain_tx, mut drain_rx) = mpsc::channel::<i32>(2048);
+        *DRAIN_TX.lock() = Some(drain_tx.clone()); // C10: lets a scenario fill the accounting channel
         let (exit_tx, mut exit_rx) = mpsc::channel::<()>(1);
         let mut admin_only = false;
         let mut total_clients: i32 = 0;
@@ -142,7 +143,10 @@ pub async fn start(config_path: &str, real_signals: bool) -> Result<Pooler, Stri
                     });
                 }
                 _ = exit_rx.recv() => { break; }
-                client_ping = drain_rx.recv() => {
+                // C10 (additive): while DRAIN_STALL is set the accounting channel is not read (a busy main loop);
+                // DRAIN_WAKE makes the loop look at the flag again
+                _ = DRAIN_WAKE.notified() => {}
+                client_ping = drain_rx.recv(), if !DRAIN_STALL.load(Ordering::SeqCst) => {
                     let client_ping = client_ping.unwrap();
                     total_clients += client_ping;
                     total.store(total_clients as i64, Ordering::SeqCst);
@@ -157,6 +161,40 @@ pub async fn start(config_path: &str, real_signals: bool) -> Result<Pooler, Stri
         // mark the exit; the harness treats later observations accordingly.
     });
     Ok(p)
+}
+
+/// C10: the main loop does not read the drain (client accounting) channel while this is set.
+pub static DRAIN_STALL: AtomicBool = AtomicBool::new(false);
+pub static DRAIN_WAKE: once_cell::sync::Lazy<tokio::sync::Notify> = once_cell::sync::Lazy::new(tokio::sync::Notify::new);
+pub static DRAIN_TX: once_cell::sync::Lazy<Mutex<Option<mpsc::Sender<i32>>>> = once_cell::sync::Lazy::new(|| Mutex::new(None));
+
+/// C10: stall = stop reading the drain channel and fill its 2048 slots with no-op pings (0), so that every
+/// `drain.send(..).await` of a client task waits — what a busy main loop does to client_entrypoint between
+/// accept and handle(); un-stall = read again (everything queued is then processed in order).
+pub async fn drain_stall(on: bool) -> usize {
+    let mut filled = 0;
+    if on {
+        DRAIN_STALL.store(true, Ordering::SeqCst);
+        DRAIN_WAKE.notify_one();
+        let tx = DRAIN_TX.lock().clone();
+        if let Some(tx) = tx {
+            // the loop may still complete one pending recv: top the channel up until it stays full
+            let mut quiet = 0;
+            while quiet < 3 {
+                let mut n = 0;
+                while tx.try_send(0).is_ok() {
+                    n += 1;
+                }
+                filled += n;
+                quiet = if n == 0 { quiet + 1 } else { 0 };
+                tokio::time::sleep(std::time::Duration::from_millis(3)).await;
+            }
+        }
+    } else {
+        DRAIN_STALL.store(false, Ordering::SeqCst);
+        DRAIN_WAKE.notify_one();
+    }
+    filled
 }
 
 /// C10: number of client connections accepted so far (the accept index of a client task).
